@@ -653,19 +653,22 @@ end Reals
 /-! ## Part C — the tree cache of `Grid.get_ball_tree` / `Grid.get_kd_tree` -/
 
 /-- wrapper invariant: every occupied slot was built from the slot's own element kind and the
-    wrapper's system / metric, and the current slot is occupied -/
-def TreeOK (t : TreeObj) : Prop :=
+    wrapper's system / metric, the current slot is occupied, and `_n_elements` is the size of the
+    CURRENT element kind -/
+def TreeOK (z : Sizes) (t : TreeObj) : Prop :=
   (∀ e b, t.slot e = some b → b = ⟨e, t.sys, t.metric⟩) ∧ (t.slot t.coords).isSome = true
+    ∧ t.count = z.of t.coords
 
-theorem newTree_fields (r : Req) :
-    (newTree r).coords = r.elem ∧ (newTree r).sys = r.sys ∧ (newTree r).metric = r.metric := by
+theorem newTree_fields (z : Sizes) (r : Req) :
+    (newTree z r).coords = r.elem ∧ (newTree z r).sys = r.sys ∧ (newTree z r).metric = r.metric
+      ∧ (newTree z r).count = z.of r.elem := by
   unfold newTree
-  rw [setSlot_coords, setSlot_sys, setSlot_metric]
-  exact ⟨rfl, rfl, rfl⟩
+  rw [setSlot_coords, setSlot_sys, setSlot_metric, setSlot_count]
+  exact ⟨rfl, rfl, rfl, rfl⟩
 
-theorem newTree_ok (r : Req) : TreeOK (newTree r) := by
-  obtain ⟨hc, hs, hm⟩ := newTree_fields r
-  constructor
+theorem newTree_ok (z : Sizes) (r : Req) : TreeOK z (newTree z r) := by
+  obtain ⟨hc, hs, hm, hn⟩ := newTree_fields z r
+  refine ⟨?_, ?_, ?_⟩
   · intro e b h
     rw [hs, hm]
     unfold newTree at h
@@ -674,17 +677,18 @@ theorem newTree_ok (r : Req) : TreeOK (newTree r) := by
     · rw [slot_setSlot_ne _ _ _ _ he] at h
       cases e <;> cases h
   · rw [hc]; unfold newTree; rw [slot_setSlot_same]; rfl
+  · rw [hn, hc]
 
-theorem switchTo_spec (t : TreeObj) (e : Elem) (h : TreeOK t) :
-    TreeOK (switchTo t e) ∧ (switchTo t e).coords = e ∧ (switchTo t e).sys = t.sys
-      ∧ (switchTo t e).metric = t.metric := by
-  obtain ⟨h1, _⟩ := h
+theorem switchTo_spec (z : Sizes) (t : TreeObj) (e : Elem) (h : TreeOK z t) :
+    TreeOK z (switchTo z t e) ∧ (switchTo z t e).coords = e ∧ (switchTo z t e).sys = t.sys
+      ∧ (switchTo z t e).metric = t.metric := by
+  obtain ⟨h1, _, _⟩ := h
   unfold switchTo
-  have hslot : ∀ e', ({ t with coords := e } : TreeObj).slot e' = t.slot e' := by
+  have hslot : ∀ e', ({ t with coords := e, count := z.of e } : TreeObj).slot e' = t.slot e' := by
     intro e'; cases e' <;> rfl
   simp only []
   split
-  · refine ⟨⟨?_, ?_⟩, ?_, ?_, ?_⟩
+  · refine ⟨⟨?_, ?_, ?_⟩, ?_, ?_, ?_⟩
     · intro e' b hb
       rw [setSlot_sys, setSlot_metric]
       by_cases he : e' = e
@@ -693,32 +697,34 @@ theorem switchTo_spec (t : TreeObj) (e : Elem) (h : TreeOK t) :
         exact h1 e' b hb
     · rw [setSlot_coords]; show ((_ : TreeObj).slot e).isSome = true
       rw [slot_setSlot_same]; rfl
+    · rw [setSlot_count, setSlot_coords]
     · rw [setSlot_coords]
     · rw [setSlot_sys]
     · rw [setSlot_metric]
   · rename_i hc
-    refine ⟨⟨?_, ?_⟩, rfl, rfl, rfl⟩
+    refine ⟨⟨?_, ?_, rfl⟩, rfl, rfl, rfl⟩
     · intro e' b hb
       rw [hslot] at hb
       exact h1 e' b hb
-    · show (({ t with coords := e } : TreeObj).slot e).isSome = true
+    · show (({ t with coords := e, count := z.of e } : TreeObj).slot e).isSome = true
       simp only [Bool.or_eq_true, not_or, Bool.not_eq_true, Option.isNone_eq_false_iff] at hc
       exact hc.1
 
-theorem reflects_of_ok (r : Req) (t : TreeObj) (h : TreeOK t) (hc : t.coords = r.elem)
-    (hs : t.sys = r.sys) (hm : t.metric = r.metric) : reflects r t = true := by
-  obtain ⟨h1, h2⟩ := h
+theorem reflects_of_ok (z : Sizes) (r : Req) (t : TreeObj) (h : TreeOK z t) (hc : t.coords = r.elem)
+    (hs : t.sys = r.sys) (hm : t.metric = r.metric) : reflects z r t = true := by
+  obtain ⟨h1, h2, h3⟩ := h
   unfold reflects TreeObj.current
   obtain ⟨b, hb⟩ := Option.isSome_iff_exists.mp h2
   have := h1 _ b hb
-  rw [hb, this, hc, hs, hm]
+  rw [hb, this, h3, hc, hs, hm]
   simp
 
-theorem getFrom_repaired (cur : Option TreeObj) (r : Req) (h : ∀ t, cur = some t → TreeOK t) :
-    TreeOK (getFrom .repaired cur r) ∧ reflects r (getFrom .repaired cur r) = true := by
-  have hnew : TreeOK (newTree r) ∧ reflects r (newTree r) = true := by
-    obtain ⟨hc, hs, hm⟩ := newTree_fields r
-    exact ⟨newTree_ok r, reflects_of_ok r _ (newTree_ok r) hc hs hm⟩
+theorem getFrom_repaired (z : Sizes) (cur : Option TreeObj) (r : Req)
+    (h : ∀ t, cur = some t → TreeOK z t) :
+    TreeOK z (getFrom z .repaired cur r) ∧ reflects z r (getFrom z .repaired cur r) = true := by
+  have hnew : TreeOK z (newTree z r) ∧ reflects z r (newTree z r) = true := by
+    obtain ⟨hc, hs, hm, _⟩ := newTree_fields z r
+    exact ⟨newTree_ok z r, reflects_of_ok z r _ (newTree_ok z r) hc hs hm⟩
   unfold getFrom
   cases cur with
   | none => exact hnew
@@ -733,36 +739,36 @@ theorem getFrom_repaired (cur : Option TreeObj) (r : Req) (h : ∀ t, cur = some
         simp only [Bool.or_eq_true, bne_iff_ne, ne_eq, not_or, Decidable.not_not,
           decide_true, Bool.true_and] at hne
         split
-        · obtain ⟨hok, hc, hs, hm⟩ := switchTo_spec t r.elem ht
-          exact ⟨hok, reflects_of_ok r _ hok hc (by rw [hs, hne.1]) (by rw [hm, hne.2])⟩
+        · obtain ⟨hok, hc, hs, hm⟩ := switchTo_spec z t r.elem ht
+          exact ⟨hok, reflects_of_ok z r _ hok hc (by rw [hs, hne.1]) (by rw [hm, hne.2])⟩
         · rename_i hel
           simp only [bne_iff_ne, ne_eq, Decidable.not_not] at hel
-          exact ⟨ht, reflects_of_ok r t ht hel.symm hne.1.symm hne.2.symm⟩
+          exact ⟨ht, reflects_of_ok z r t ht hel.symm hne.1.symm hne.2.symm⟩
 
-def CacheOK (c : Cache) : Prop :=
-  (∀ t, c.ball = some t → TreeOK t) ∧ (∀ t, c.kd = some t → TreeOK t)
+def CacheOK (z : Sizes) (c : Cache) : Prop :=
+  (∀ t, c.ball = some t → TreeOK z t) ∧ (∀ t, c.kd = some t → TreeOK z t)
 
-theorem getTree_repaired (c : Cache) (r : Req) (h : CacheOK c) :
-    CacheOK (getTree .repaired c r).1 ∧ reflects r (getTree .repaired c r).2 = true := by
+theorem getTree_repaired (z : Sizes) (c : Cache) (r : Req) (h : CacheOK z c) :
+    CacheOK z (getTree z .repaired c r).1 ∧ reflects z r (getTree z .repaired c r).2 = true := by
   unfold getTree
   cases hk : r.kind with
   | ball =>
-    obtain ⟨hok, hr⟩ := getFrom_repaired c.ball r h.1
+    obtain ⟨hok, hr⟩ := getFrom_repaired z c.ball r h.1
     refine ⟨⟨?_, h.2⟩, hr⟩
     intro t ht; cases ht; exact hok
   | kd =>
-    obtain ⟨hok, hr⟩ := getFrom_repaired c.kd r h.2
+    obtain ⟨hok, hr⟩ := getFrom_repaired z c.kd r h.2
     refine ⟨⟨h.1, ?_⟩, hr⟩
     intro t ht; cases ht; exact hok
 
-theorem runReqs_repaired (c : Cache) (rs : List Req) (h : CacheOK c) :
-    CacheOK (runReqs .repaired c rs).1 ∧
-      ∀ p ∈ List.zip rs (runReqs .repaired c rs).2, reflects p.1 p.2 = true := by
+theorem runReqs_repaired (z : Sizes) (c : Cache) (rs : List Req) (h : CacheOK z c) :
+    CacheOK z (runReqs z .repaired c rs).1 ∧
+      ∀ p ∈ List.zip rs (runReqs z .repaired c rs).2, reflects z p.1 p.2 = true := by
   induction rs generalizing c with
   | nil => exact ⟨h, by intro p hp; cases hp⟩
   | cons r rs ih =>
-    obtain ⟨hc1, hr⟩ := getTree_repaired c r h
-    obtain ⟨hc2, hall⟩ := ih (getTree .repaired c r).1 hc1
+    obtain ⟨hc1, hr⟩ := getTree_repaired z c r h
+    obtain ⟨hc2, hall⟩ := ih (getTree z .repaired c r).1 hc1
     simp only [runReqs]
     refine ⟨hc2, ?_⟩
     intro p hp
@@ -771,60 +777,84 @@ theorem runReqs_repaired (c : Cache) (rs : List Req) (h : CacheOK c) :
     · exact hr
     · exact hall p hp
 
-theorem cacheOK_empty : CacheOK Cache.empty :=
+theorem cacheOK_empty (z : Sizes) : CacheOK z Cache.empty :=
   ⟨fun t h => (by cases h), fun t h => (by cases h)⟩
 
-/-- **the tree handed back reflects the request, after ANY history** (repaired cache):
-    whatever differently parameterised trees were requested from the grid before, the wrapper
-    returned for `r` has the requested element kind, coordinate system and metric, and its
-    queries go to an sklearn tree built from exactly those. -/
-theorem tree_reflects_request (rs : List Req) (r : Req) :
-    reflects r (getTree .repaired (runReqs .repaired Cache.empty rs).1 r).2 = true :=
-  (getTree_repaired _ r (runReqs_repaired Cache.empty rs cacheOK_empty).1).2
+/-- **the tree handed back reflects the request, after ANY history** (repaired cache), on a grid
+    with ANY element counts: whatever differently parameterised trees were requested from the grid
+    before, the wrapper returned for `r` has the requested element kind, coordinate system and
+    metric, its queries go to an sklearn tree built from exactly those, and its `_n_elements` is
+    the size of the requested kind. -/
+theorem tree_reflects_request (z : Sizes) (rs : List Req) (r : Req) :
+    reflects z r (getTree z .repaired (runReqs z .repaired Cache.empty rs).1 r).2 = true :=
+  (getTree_repaired z _ r (runReqs_repaired z Cache.empty rs (cacheOK_empty z)).1).2
 
 /-- the same for every intermediate hand-back of a history -/
-theorem every_handback_reflects (rs : List Req) :
-    ∀ p ∈ List.zip rs (runReqs .repaired Cache.empty rs).2, reflects p.1 p.2 = true :=
-  (runReqs_repaired Cache.empty rs cacheOK_empty).2
+theorem every_handback_reflects (z : Sizes) (rs : List Req) :
+    ∀ p ∈ List.zip rs (runReqs z .repaired Cache.empty rs).2, reflects z p.1 p.2 = true :=
+  (runReqs_repaired z Cache.empty rs (cacheOK_empty z)).2
+
+/-- **the `k` guard after ANY history**: the wrapper handed back for request `r` accepts `k`
+    iff `1 ≤ k ≤ n` of the REQUESTED element kind (not of any kind visited before). -/
+theorem handback_guard (z : Sizes) (rs : List Req) (r : Req) (k : Int) :
+    (getTree z .repaired (runReqs z .repaired Cache.empty rs).1 r).2.accepts k = true
+      ↔ 1 ≤ k ∧ k ≤ (z.of r.elem : Int) := by
+  have h := tree_reflects_request z rs r
+  unfold reflects at h
+  simp only [Bool.and_eq_true, beq_iff_eq] at h
+  unfold TreeObj.accepts
+  rw [h.2]
+  simp
 
 /-- **element-kind switches on one cached wrapper** (same tree type, system and metric, no
     `reconstruct`): after ANY walk through element kinds — A,B,A, A,B,C,A, … — the wrapper handed
-    back for kind `e` routes its queries to the sklearn tree built from kind `e`. -/
-theorem kind_switch_reflects (k : TreeKind) (s : Sys) (m : Metric) (es : List Elem) (e : Elem) :
-    reflects ⟨k, e, s, m, false⟩
-      (getTree .repaired (runReqs .repaired Cache.empty (es.map fun e' => ⟨k, e', s, m, false⟩)).1
+    back for kind `e` routes its queries to the sklearn tree built from kind `e` and guards `k`
+    with the size of kind `e`. -/
+theorem kind_switch_reflects (z : Sizes) (k : TreeKind) (s : Sys) (m : Metric) (es : List Elem)
+    (e : Elem) :
+    reflects z ⟨k, e, s, m, false⟩
+      (getTree z .repaired
+        (runReqs z .repaired Cache.empty (es.map fun e' => ⟨k, e', s, m, false⟩)).1
         ⟨k, e, s, m, false⟩).2 = true :=
-  tree_reflects_request _ _
+  tree_reflects_request z _ _
 
-example : (getTree .repaired (runReqs .repaired Cache.empty
+/-- non-vacuity: nodes (10) → faces (7) → nodes keeps routing to the node tree and accepts k = 10 -/
+example : (getTree ⟨10, 7, 15⟩ .repaired (runReqs ⟨10, 7, 15⟩ .repaired Cache.empty
       [⟨.kd, .nodes, .spherical, .l2, false⟩, ⟨.kd, .faces, .spherical, .l2, false⟩]).1
       ⟨.kd, .nodes, .spherical, .l2, false⟩).2.current = some ⟨.nodes, .spherical, .l2⟩ := by decide
+example : (getTree ⟨10, 7, 15⟩ .repaired (runReqs ⟨10, 7, 15⟩ .repaired Cache.empty
+      [⟨.kd, .nodes, .spherical, .l2, false⟩, ⟨.kd, .faces, .spherical, .l2, false⟩]).1
+      ⟨.kd, .nodes, .spherical, .l2, false⟩).2.accepts 10 = true := by decide
+example : (getTree ⟨10, 7, 15⟩ .repaired (runReqs ⟨10, 7, 15⟩ .repaired Cache.empty
+      [⟨.kd, .nodes, .spherical, .l2, false⟩]).1
+      ⟨.kd, .faces, .spherical, .l2, false⟩).2.accepts 8 = false := by decide
 
 /-- **the code as it stands** (only `coordinates` compared): a ball tree requested with Cartesian
     coordinates after the default spherical one is the spherical haversine tree. -/
 theorem asis_cache_stale :
-    ¬ (∀ (rs : List Req) (r : Req),
-        reflects r (getTree .asIs (runReqs .asIs Cache.empty rs).1 r).2 = true) := by
+    ¬ (∀ (z : Sizes) (rs : List Req) (r : Req),
+        reflects z r (getTree z .asIs (runReqs z .asIs Cache.empty rs).1 r).2 = true) := by
   intro h
-  have := h [⟨.ball, .nodes, .spherical, .haversine, false⟩] ⟨.ball, .nodes, .cartesian, .l2, false⟩
+  have := h ⟨3, 1, 3⟩ [⟨.ball, .nodes, .spherical, .haversine, false⟩]
+    ⟨.ball, .nodes, .cartesian, .l2, false⟩
   revert this; decide
 
-/-- what the as-is cache still guarantees: the ELEMENT KIND is always the requested one, and
-    the whole request is reflected when `reconstruct=True` is passed -/
-theorem asis_partial_reconstruct (c : Cache) (r : Req) (hr : r.recon = true) :
-    reflects r (getTree .asIs c r).2 = true := by
-  obtain ⟨hc, hs, hm⟩ := newTree_fields r
-  have hnew := reflects_of_ok r _ (newTree_ok r) hc hs hm
+/-- what the as-is cache still guarantees: the whole request is reflected when
+    `reconstruct=True` is passed -/
+theorem asis_partial_reconstruct (z : Sizes) (c : Cache) (r : Req) (hr : r.recon = true) :
+    reflects z r (getTree z .asIs c r).2 = true := by
+  obtain ⟨hc, hs, hm, _⟩ := newTree_fields z r
+  have hnew := reflects_of_ok z r _ (newTree_ok z r) hc hs hm
   unfold getTree getFrom
   cases hk : r.kind <;> simp only [] <;> split <;> simp_all
 
-example : reflects ⟨.kd, .faces, .spherical, .l2, false⟩
-    (getTree .repaired (runReqs .repaired Cache.empty
+example : reflects ⟨10, 7, 15⟩ ⟨.kd, .faces, .spherical, .l2, false⟩
+    (getTree ⟨10, 7, 15⟩ .repaired (runReqs ⟨10, 7, 15⟩ .repaired Cache.empty
       [⟨.kd, .nodes, .cartesian, .l2, false⟩, ⟨.ball, .edges, .spherical, .haversine, false⟩,
        ⟨.kd, .faces, .cartesian, .l1, true⟩]).1 ⟨.kd, .faces, .spherical, .l2, false⟩).2 = true := by
   decide
-example : reflects ⟨.kd, .faces, .spherical, .l2, false⟩
-    (getTree .asIs (runReqs .asIs Cache.empty
+example : reflects ⟨10, 7, 15⟩ ⟨.kd, .faces, .spherical, .l2, false⟩
+    (getTree ⟨10, 7, 15⟩ .asIs (runReqs ⟨10, 7, 15⟩ .asIs Cache.empty
       [⟨.kd, .nodes, .cartesian, .l2, false⟩]).1 ⟨.kd, .faces, .spherical, .l2, false⟩).2 = false := by
   decide
 
